@@ -260,11 +260,15 @@ Definition cap_without (L : layout) (reqs out : alist Z) (load : Z) (i : Z) : bo
      0 accepted, 1 VIOLATION,
      2 known finding c04-single-instance-on-demand-load: non-distributed application whose instance / node was validated
        for the load of the start sequence only; everything holds but the node cap, it still fails when concurrent
-       starts of other applications are left out, and either (SINGLE_INSTANCE) the program itself is outside the
-       start sequence, or the cap holds once the load of the application's other programs outside the start sequence
-       is left out;
+       starts of other applications are left out, and either the program itself is outside the start sequence, or
+       the cap holds once the load of the application's other programs outside the start sequence is left out;
      3 known finding c04-cross-application-pending-load: everything holds but the node cap, and the cap holds once
        the load placed by the concurrent starts of OTHER applications is left out;
+     5 known finding c04-non-distributed-no-recheck: non-distributed application whose target was validated once, at
+       before(), for the load of its whole start sequence: every clause holds at the request but the node cap, and
+       the cap still fails when every pending request of other applications and every on-demand program is left
+       out, i.e. load has arrived on the node since (processes of other applications started there meanwhile);
+       the requests of a non-distributed job carry no load check of their own;
      4 known finding c03-noresource-reentrancy seen through C04: the request repeats, or does not count, an
        unanswered request sent by another job of the same application — one of the two jobs was dropped by the
        Starter while it was processing a 'No resource available' (re-entrant Commander.next) and goes on alone *)
@@ -300,8 +304,7 @@ Definition decision_verdict (dc : decision) : Z :=
               cap_without (v_layout v) (v_reqs v) (d_foreign dc ++ d_orphans dc ++ d_ondemand dc) (v_load v) t in
             match d with
             | D_ALL_INSTANCES => 1
-            | D_SINGLE_INSTANCE => if d_on_demand dc || sequence_only then 2 else 1
-            | D_SINGLE_NODE => if sequence_only then 2 else 1
+            | D_SINGLE_INSTANCE | D_SINGLE_NODE => if d_on_demand dc || sequence_only then 2 else 5
             end
       end
   | _, _ => 0
@@ -376,3 +379,4 @@ Definition spec_violations (cs : list rcase) : list nat := find_idx rcase_violat
 Definition known_single_instance_on_demand (cs : list rcase) : list nat := find_idx (has_verdict 2) cs.
 Definition known_cross_application (cs : list rcase) : list nat := find_idx (has_verdict 3) cs.
 Definition known_noresource_reentrancy (cs : list rcase) : list nat := find_idx (has_verdict 4) cs.
+Definition known_nondistributed_no_recheck (cs : list rcase) : list nat := find_idx (has_verdict 5) cs.
